@@ -20,7 +20,7 @@ import (
 	"github.com/go-task/task/v3/verifh/h"
 )
 
-const rule = "corpus: every testdata/**/Taskfile*.y*ml of the repository (with the files around it), the yaml code blocks of website/docs, and generated Taskfiles that use every schema key. inputs (a function of VERIF_SEED and the index): the corpus unchanged, then mutants: 1-3 structure-aware mutations on the yaml.Node tree (replace any node by scalar/sequence/mapping/null/{}/[]/tagged scalar; rename/duplicate/drop/swap keys; insert a schema key with a value of random shape; numbers<->strings, huge ints; deep nesting; anchor+alias), task names over the C15 alphabet, include locations (.git URLs with/without //, http(s)://, empty, directories, self, ~, $VAR, templates), and/or 1-2 lexical mutations (CR, CRLF, NEL, LS/PS, mixed terminators, BOM, UTF-16, tabs, NUL, invalid UTF-8, truncation, splice of another corpus file, line duplication/deletion, indentation, punctuation, byte flips), synthetic pathological documents (20000-deep flow collections, alias expansion, anchor cycles, 1 MiB scalars, 2000-task dependency ring); 1 in 8 mutants is placed as the included file of a sane root. channel inproc: every input goes through a child process that links the repository (yaml.Unmarshal into ast.Taskfile, Executor.Setup, ListTasks plain+JSON, ListTaskNames, NAME=value assignments, GetTask/FastCompiledTask/CompiledTask for every task and generated request, Run with Dry) and journals '<input>:<stage>' before each call; a dead child is a violation attributed to the journal's last entry and the parent restarts after it. channel cli: the first inputs also go to the rebuilt CLI in 6 invocations (--list-all, --list-all --json, <name>, --summary <name>, --dry <name>, one of the three with a generated request; NAME=value arguments added) under ulimit -v/-t with an empty PATH. violation: Go panic / fatal error / signal, exit status outside {0,1,50,100-110,200-207}, CPU limit (CPU time, not wall clock), memory limit, non-zero exit without any diagnostic. wall-clock watchdog = inconclusive. A case is one (input, invocation); non-trivial = the input is a mutant (differs from every corpus file) ; distinct by hash(project files, invocation)."
+const rule = "corpus: every testdata/**/Taskfile*.y*ml of the repository (with the files around it), the yaml code blocks of website/docs, and generated Taskfiles that use every schema key. inputs (a function of VERIF_SEED and the index): the corpus unchanged, then mutants: 1-3 structure-aware mutations on the yaml.Node tree (replace any node by scalar/sequence/mapping/null/{}/[]/tagged scalar; rename/duplicate/drop/swap keys; insert a schema key with a value of random shape; numbers<->strings, huge ints; deep nesting; anchor+alias), task names over the C15 alphabet, shell-word hostile strings (comments = zero words, unterminated quotes/substitutions, tilde forms, glob and brace fragments, operators, blanks, line continuations, invalid UTF-8 in brackets; literally or through a template variable) in every field that is shell-expanded, globbed or run (task dir, include taskfile/dir, sources/generates, dotenv, status/preconditions/cmds, sh: variables), include locations (.git URLs with/without //, http(s)://, empty, directories, self, ~, $VAR, templates), and/or 1-2 lexical mutations (CR, CRLF, NEL, LS/PS, mixed terminators, BOM, UTF-16, tabs, NUL, invalid UTF-8, truncation, splice of another corpus file, line duplication/deletion, indentation, punctuation, byte flips), synthetic pathological documents (20000-deep flow collections, alias expansion, anchor cycles, 1 MiB scalars, 2000-task dependency ring); 1 in 8 mutants is placed as the included file of a sane root. channel inproc: every input goes through a child process that links the repository (yaml.Unmarshal into ast.Taskfile, Executor.Setup, ListTasks plain+JSON, ListTaskNames, NAME=value assignments, GetTask/FastCompiledTask/CompiledTask for every task and generated request, Run with Dry) and journals '<input>:<stage>' before each call; a dead child is a violation attributed to the journal's last entry and the parent restarts after it. channel cli: the first inputs also go to the rebuilt CLI in 6 invocations (--list-all, --list-all --json, <name>, --summary <name>, --dry <name>, one of the three with a generated request; NAME=value arguments added) under ulimit -v/-t with an empty PATH. violation: Go panic / fatal error / signal, exit status outside {0,1,50,100-110,200-207}, CPU limit (CPU time, not wall clock), memory limit, non-zero exit without any diagnostic. wall-clock watchdog = inconclusive. A case is one (input, invocation); non-trivial = the input is a mutant (differs from every corpus file) ; distinct by hash(project files, invocation)."
 
 var documented = func() map[int]bool {
 	m := map[int]bool{0: true, 1: true, 50: true}
@@ -161,8 +161,17 @@ func Run(id string, start time.Time) int {
 
 	var wg sync.WaitGroup
 	wg.Add(2)
-	go func() { defer wg.Done(); rn.inproc(inputs) }()
-	go func() { defer wg.Done(); rn.cli(inputs[:nCLI]) }()
+	t0 := time.Now()
+	go func() {
+		defer wg.Done()
+		rn.inproc(inputs)
+		rn.part.Max("wall_s_inproc_channel", int64(time.Since(t0).Seconds()))
+	}()
+	go func() {
+		defer wg.Done()
+		rn.cli(inputs[:nCLI])
+		rn.part.Max("wall_s_cli_channel", int64(time.Since(t0).Seconds()))
+	}()
 	wg.Wait()
 
 	f := false
@@ -178,6 +187,15 @@ func Run(id string, start time.Time) int {
 		MinEvents: int64(h.Pick(5000, 60000)), EventsKey: "inproc_inputs_started",
 		Extra: map[string]any{"cpu_limit_s": cpuLimitSec, "memory_limit_kib": memLimitKB, "documented_exit_codes": "0,1,50,100-110,200-207"},
 	}, rn.part)
+}
+
+func contains(l []string, s string) bool {
+	for _, x := range l {
+		if x == s {
+			return true
+		}
+	}
+	return false
 }
 
 // mutClass is the mutator name without its variant ("lex:bom:utf16" -> "lex:bom").
@@ -249,7 +267,7 @@ var cliModes = []cliMode{
 }
 
 func (rn *runner) cli(inputs []Input) {
-	h.Parallel(len(inputs), 8, func(i int) {
+	h.Parallel(len(inputs), 12, func(i int) {
 		in := &inputs[i]
 		dir := filepath.Join(rn.scratch, "cli", strconv.Itoa(i))
 		if err := h.WriteTree(dir, in.Files()); err != nil {
@@ -268,6 +286,13 @@ func (rn *runner) cli(inputs []Input) {
 		}
 		if len(own) > 0 {
 			name1 = own[r.Intn(len(own))]
+		}
+		for _, f := range in.Focus {
+			// the task a field-aware mutation touched: summary, dry run and run compile it on the
+			// main goroutine (a panic inside the listing goroutines can lose the race against exit)
+			if cliOK(f) && (strings.Contains(f, ":") || contains(own, f)) {
+				name1 = f
+			}
 		}
 		name2 := "default"
 		var reqs []string
@@ -305,6 +330,10 @@ func (rn *runner) cli(inputs []Input) {
 			env := []string{"PATH=/nonexistent-p16"}
 			if in.Remote {
 				env = append(env, "TASK_X_REMOTE_TASKFILES=1")
+			}
+			if contains(in.Muts, MutShell) && i%4 == 0 {
+				// the directories taken from the environment go through the same expansion
+				env = append(env, "TASK_TEMP_DIR="+ShellHostile[i%len(ShellHostile)])
 			}
 			script := fmt.Sprintf(`ulimit -v %d; ulimit -t %d; exec "$@"`, memLimitKB, cpuLimitSec)
 			res := Proc{Bin: "/bin/sh", Dir: dir, Args: append([]string{"-c", script, "sh", rn.bin}, args...), Env: env, Timeout: 120 * time.Second, TmpDir: rn.scratch}.Run()
@@ -366,6 +395,7 @@ func (rn *runner) inproc(inputs []Input) {
 		wg.Add(1)
 		go func(s int) {
 			defer wg.Done()
+			shardStart := time.Now()
 			var mine []*Input
 			for i := s; i < len(inputs); i += shards {
 				mine = append(mine, &inputs[i])
@@ -471,6 +501,7 @@ func (rn *runner) inproc(inputs []Input) {
 				}
 			}
 			os.RemoveAll(base)
+			rn.part.Max("wall_s_slowest_inproc_shard", int64(time.Since(shardStart).Seconds()))
 		}(s)
 	}
 	wg.Wait()
